@@ -180,24 +180,34 @@ func TestC06_Rapid(t *testing.T) {
 }
 
 // TestC06_OutOfRange: every value of the numeric fields whose range the wire does not constrain.
-func TestC06_OutOfRange(t *testing.T) {
-	// IA prefix length, 4RD map rule lengths and flags, 4RD non-map flags, FQDN flags, NII type
+// numericFieldInputsV6: every value 0..255 of the one-octet numeric fields whose range the framing does not
+// constrain: IA prefix length, 4RD map-rule prefix lengths and flags, 4RD non-map flags, FQDN flags, NII type.
+func numericFieldInputsV6() [][]byte {
+	var out [][]byte
 	for v := 0; v < 256; v++ {
 		pfx := append([]byte{0, 0, 0, 10, 0, 0, 0, 20, byte(v)}, bytes.Repeat([]byte{0x20}, 16)...)
 		iapd := append([]byte{0, 0, 0, 1, 0, 0, 0, 2, 0, 0, 0, 3, 0, 26, 0, byte(len(pfx))}, pfx...)
-		msg := append([]byte{7, 1, 2, 3, 0, 25, 0, byte(len(iapd))}, iapd...)
-		c06.one(t, c06Case{V6: true, B: msg})
+		out = append(out, append([]byte{7, 1, 2, 3, 0, 25, 0, byte(len(iapd))}, iapd...))
 		for _, pos := range []int{0, 1, 3} {
 			mr := append([]byte{24, 64, 8, 0}, bytes.Repeat([]byte{0x11}, 20)...)
 			mr[pos] = byte(v)
 			frd := append([]byte{0, 98, 0, 24}, mr...)
-			c06.one(t, c06Case{V6: true, B: append([]byte{7, 1, 2, 3, 0, 97, 0, byte(len(frd))}, frd...)})
+			out = append(out, append([]byte{7, 1, 2, 3, 0, 97, 0, byte(len(frd))}, frd...))
 		}
 		nm := []byte{byte(v), 0x55, 0x05, 0xdc}
 		frd := append([]byte{0, 99, 0, 4}, nm...)
-		c06.one(t, c06Case{V6: true, B: append([]byte{7, 1, 2, 3, 0, 97, 0, byte(len(frd))}, frd...)})
-		c06.one(t, c06Case{V6: true, B: []byte{1, 1, 2, 3, 0, 39, 0, 6, byte(v), 3, 'f', 'o', 'o', 0}})
-		c06.one(t, c06Case{V6: true, B: []byte{1, 1, 2, 3, 0, 62, 0, 3, byte(v), 2, 1}})
+		out = append(out, append([]byte{7, 1, 2, 3, 0, 97, 0, byte(len(frd))}, frd...))
+		out = append(out, []byte{1, 1, 2, 3, 0, 39, 0, 6, byte(v), 3, 'f', 'o', 'o', 0})
+		out = append(out, []byte{1, 1, 2, 3, 0, 62, 0, 3, byte(v), 2, 1})
+	}
+	return out
+}
+
+func TestC06_OutOfRange(t *testing.T) {
+	for _, b := range numericFieldInputsV6() {
+		c06.one(t, c06Case{V6: true, B: b})
+	}
+	for v := 0; v < 256; v++ {
 		// DHCPv4: hlen, op, htype
 		for _, off := range []int{0, 1, 2} {
 			p := append(v4Prefix(), 53, 1, 5, 255)
